@@ -470,6 +470,16 @@ M("r24-addstr-room-without-terminator", ["C19", "C16"], "break",
    ("vlobject.cpp", "  length = strlen (str) + 1;\n  if (vlo_free + length > vlo_boundary)\n    _VLO_expand_memory (length);\n  memcpy( vlo_free, str, length );\n  vlo_free = vlo_free + length;",
     "  length = strlen (str);\n  if (vlo_free + length > vlo_boundary)\n    _VLO_expand_memory (length);\n  memcpy( vlo_free, str, length + 1 );\n  vlo_free = vlo_free + length + 1;")],
   "copy-to-free-end")
+M("c03-passthrough-hangs-under-orig-state", ["C03", "C02"], "break",
+  [("yaep.c", "		  state->parent_anode_state = (anode == NULL\n					       ? curr_state->\n					       parent_anode_state :\n					       curr_state);",
+    "		  state->parent_anode_state = (anode == NULL\n					       ? orig_state->\n					       parent_anode_state :\n					       orig_state);")],
+  "make_parse/one-parent-state")
+M("c03-copy-anode-rule-of-reduced-symbol", ["C03", "C12", "C02"], "break",
+  [("yaep.c", "			  = copy_anode (parent_anode->val.anode.children\n					+ parent_disp, anode, rule, disp);", "			  = copy_anode (parent_anode->val.anode.children\n					+ parent_disp, anode, sit_rule, disp);")],
+  "make_parse/copy_anode")
+M("r10-follow-inherit-result-dropped", ["C01", "C03", "C10"], "break",
+  [("yaep.c", "		    if (k == rhs_len)\n		      changed_p |= term_set_or (rhs_symb->u.nonterm.follow,\n						symb->u.nonterm.follow);", "		    if (k == rhs_len)\n		      term_set_or (rhs_symb->u.nonterm.follow,\n				   symb->u.nonterm.follow);")],
+  "create_first_follow_sets/update-reported")
 
 # ---- R8 / R2f (C16, C19) ----------------------------------------------------------------------------
 M("r8-revert-F14", ["C19", "C16"], "break", [("hashtab.cpp", "		  entry_ptr = first_deleted_entry_ptr;\n		  *entry_ptr = EMPTY_ENTRY;", "		  entry_ptr = first_deleted_entry_ptr;\n		  *entry_ptr = DELETED_ENTRY;")], "find_hash_table_entry~")
